@@ -30,6 +30,7 @@ import PdModel.Proto
 * `unmasked CLASS (| CLASS)*`         → `ok <id>*` | `IndexError`   (util.unmasked_attrs of the chain; CLASS = MEMBER*,
       MEMBER = `<name>;<v|h>`; ids number the members of the request from 0)
 * `inherited CLASS (| CLASS)*`        → `ok <id>*`                  (util.inherited_members, classes in mro order)
+* `documents (<fullName>;<v|h>)*`      → `ok <fullName>*`            (search.get_all_documents_flattenable / get_corpus)
 * `exec DIR* | OP*`                   → the same without the `wf=` token (stream of the OS primitives)
 -/
 namespace Determinism
@@ -264,6 +265,12 @@ def handle (args : List String) : String :=
   | "inherited" :: toks =>
     match decClasses (splitBar toks) with
     | some mro => showMembers (inheritedMembers mro)
+    | none => "bad-op"
+  | "documents" :: toks =>
+    match toks.mapM (fun tok => match tok.splitOn ";" with
+        | [n, v] => (decName n).map (fun nm => (nm, v == "v"))
+        | _ => none) with
+    | some l => showNames (documentOrder l)
     | none => "bad-op"
   | "run" :: rest => runOp true rest
   | "exec" :: rest => runOp false rest
